@@ -195,6 +195,16 @@ pub fn blob(r: &mut Rng) -> &'static [u8] {
     let d = dict();
     &d.blobs[r.below(d.blobs.len())]
 }
+/// a short byte-string literal (2..=8 bytes: markers, magic numbers, tags), if there is one
+pub fn short_blob(r: &mut Rng) -> &'static [u8] {
+    let d = dict();
+    let short: Vec<&Vec<u8>> = d.blobs.iter().filter(|b| b.len() >= 2 && b.len() <= 8).collect();
+    if short.is_empty() {
+        blob(r)
+    } else {
+        short[r.below(short.len())]
+    }
+}
 pub fn string(r: &mut Rng) -> &'static str {
     let d = dict();
     &d.strs[r.below(d.strs.len())]
